@@ -187,7 +187,7 @@ def raw(repo):
     wfs = waveforms(K)
     n = len(wfs)
     lanes = 3
-    times = [K['TMAX'], 0.5, 1.0, 2.6, 2.75, 6.25, 100.0]
+    times = [K['TMAX'], 0.5, 2.6, 2.75, 100.0]
     bad = {}
     agree = None
     evals = 0
